@@ -194,6 +194,36 @@ func checkC15(w *World, c *Check, tier string) {
 		}
 	}
 
+	// ---- IRIf builds: whatever IRIf returns is made of BOTH its arguments — the owner and, after it, the collection name.
+	// A return that hands the owner back (trimmed or not) "because it already ends in that name" breaks build/split for
+	// exactly the owners whose last segment is the name being built: Split then cuts the owner's own segment off ----
+	if irif := w.Func("IRIf"); irif != nil && len(irif.Params) == 2 {
+		nRet := 0
+		for _, rb := range returnBlocks(irif) {
+			ret := rb.Instrs[len(rb.Instrs)-1].(*ssa.Return)
+			if len(ret.Results) != 1 {
+				continue
+			}
+			nRet++
+			leaves := map[ssa.Value]bool{}
+			textLeaves(ret.Results[0], ret, leaves, map[ssa.Value]bool{}, 0)
+			key := fmt.Sprintf("IRIf:return#%d", nRet)
+			switch {
+			case !leaves[irif.Params[1]]:
+				c.bad("C15.build", key, w.InstrPos(ret), "IRIf returns a text that is not built from the collection name: for the inputs that take this path the result does not end in the name, so splitting it does not give the name and the owner back")
+			case !leaves[irif.Params[0]]:
+				c.bad("C15.build", key, w.InstrPos(ret), "IRIf returns a text that is not built from the owner IRI")
+			default:
+				c.ok("C15.build", key, w.InstrPos(ret), "built from the owner and the collection name")
+			}
+		}
+		if nRet == 0 {
+			c.bad("C15.build", "IRIf:return", w.FuncPos(irif), "no return found (undecided)")
+		}
+	} else {
+		c.bad("C15.build", "anchor:IRIf", "-", "IRIf(owner, name) not found")
+	}
+
 	// ---- path representation: what Split writes back into URL.Path comes from URL.Path itself ----
 	if sp := w.Method("CollectionPaths", "Split"); sp != nil {
 		for _, f := range w.Reach([]*ssa.Function{sp}, nil) {
@@ -270,39 +300,45 @@ func checkC15(w *World, c *Check, tier string) {
 				actorTerms[f.Term] = true
 			}
 		}
-		for _, n := range c15Names {
-			ip := newInterp(w)
-			var seq []string
-			ip.onCall = func(ev callEvent) {
-				switch ev.Callee {
-				case ofA:
-					seq = append(seq, "ofActor")
-				case ofO:
-					seq = append(seq, "ofObject")
+		// the actor is recognised by its Go type, whatever its type NAME says: a decoded {"type":"Actor"} document and an
+		// actor value without a type are *Actor values too and carry the same explicit collections
+		for _, tv := range []string{"Person", "Actor", ""} {
+			for _, n := range c15Names {
+				ip := newInterp(w)
+				var seq []string
+				ip.onCall = func(ev callEvent) {
+					switch ev.Callee {
+					case ofA:
+						seq = append(seq, "ofActor")
+					case ofO:
+						seq = append(seq, "ofObject")
+					}
 				}
-			}
-			// an actor whose type is an actor type: GetType() is forced to a member of ActorTypes
-			ip.postCall = func(callee *ssa.Function, args []AV, res AV) AV {
-				if callee.Name() == "GetType" {
-					return AV{K: kConst, C: constant.MakeString("Person"), T: w.Named("ActivityVocabularyType")}
+				ip.postCall = func(callee *ssa.Function, args []AV, res AV) AV {
+					if callee.Name() == "GetType" {
+						return AV{K: kConst, C: constant.MakeString(tv), T: w.Named("ActivityVocabularyType")}
+					}
+					return res
 				}
-				return res
-			}
-			ip.Call(of, []AV{mk(n), avIface(pa, avNonNilPtr(pa))}, nil, Store{}, nil)
-			key := "CollectionPath.Of:" + n
-			last := ""
-			if len(seq) > 0 {
-				last = seq[len(seq)-1]
-			}
-			switch {
-			case ip.aborted != "":
-				c.bad("C15.of", key, w.FuncPos(of), "undecided: "+ip.aborted)
-			case actorTerms[n] && last != "ofActor":
-				c.bad("C15.of", key, w.FuncPos(of), fmt.Sprintf("for the actor collection %q the last lookup of CollectionPath.Of on an actor is %q (sequence %v): the collection the actor sets explicitly is replaced by the IRI built from its id", n, last, seq))
-			case !actorTerms[n] && objTerms[n] && last != "ofObject":
-				c.bad("C15.of", key, w.FuncPos(of), fmt.Sprintf("for the object collection %q CollectionPath.Of does not end with the lookup on the object (sequence %v): the explicitly set collection is ignored", n, seq))
-			default:
-				c.ok("C15.of", key, w.FuncPos(of), fmt.Sprintf("lookups %v", seq))
+				ip.Call(of, []AV{mk(n), avIface(pa, avNonNilPtr(pa))}, nil, Store{}, nil)
+				key := "CollectionPath.Of:" + n
+				if tv != "Person" {
+					key += fmt.Sprintf(":type=%q", tv)
+				}
+				last := ""
+				if len(seq) > 0 {
+					last = seq[len(seq)-1]
+				}
+				switch {
+				case ip.aborted != "":
+					c.bad("C15.of", key, w.FuncPos(of), "undecided: "+ip.aborted)
+				case actorTerms[n] && last != "ofActor":
+					c.bad("C15.of", key, w.FuncPos(of), fmt.Sprintf("for the actor collection %q the last lookup of CollectionPath.Of on an *Actor whose type name is %q is %q (sequence %v): the collection the actor sets explicitly is ignored or replaced by the IRI built from its id", n, tv, last, seq))
+				case !actorTerms[n] && objTerms[n] && last != "ofObject":
+					c.bad("C15.of", key, w.FuncPos(of), fmt.Sprintf("for the object collection %q CollectionPath.Of does not end with the lookup on the object (sequence %v): the explicitly set collection is ignored", n, seq))
+				default:
+					c.ok("C15.of", key, w.FuncPos(of), fmt.Sprintf("lookups %v", seq))
+				}
 			}
 		}
 	}
@@ -526,4 +562,95 @@ func cpTypeOf(w *World) types.Type {
 		return n
 	}
 	return nil
+}
+
+
+// textLeaves: the parameters (and other leaves) whose text can end up in the string/bytes value v as it stands at
+// instruction `at`: conversions, slicing, concatenation, phis, calls (arguments), and — for the text of a
+// strings.Builder / bytes.Buffer local — everything written into that builder by calls that can precede `at`.
+func textLeaves(v ssa.Value, at ssa.Instruction, out map[ssa.Value]bool, seen map[ssa.Value]bool, d int) {
+	if v == nil || seen[v] || d > 30 {
+		return
+	}
+	seen[v] = true
+	switch x := v.(type) {
+	case *ssa.Parameter, *ssa.FreeVar, *ssa.Global:
+		out[v] = true
+	case *ssa.Const:
+	case *ssa.Convert:
+		textLeaves(x.X, at, out, seen, d+1)
+	case *ssa.ChangeType:
+		textLeaves(x.X, at, out, seen, d+1)
+	case *ssa.MakeInterface:
+		textLeaves(x.X, at, out, seen, d+1)
+	case *ssa.Slice:
+		textLeaves(x.X, at, out, seen, d+1)
+	case *ssa.Phi:
+		for _, e := range x.Edges {
+			textLeaves(e, at, out, seen, d+1)
+		}
+	case *ssa.BinOp:
+		if x.Op == token.ADD {
+			textLeaves(x.X, at, out, seen, d+1)
+			textLeaves(x.Y, at, out, seen, d+1)
+		}
+	case *ssa.Extract:
+		textLeaves(x.Tuple, at, out, seen, d+1)
+	case *ssa.UnOp:
+		if x.Op == token.MUL {
+			if al, ok := x.X.(*ssa.Alloc); ok {
+				for _, st := range storesTo(al) {
+					textLeaves(st.Val, at, out, seen, d+1)
+				}
+				return
+			}
+		}
+		textLeaves(x.X, at, out, seen, d+1)
+	case *ssa.Call:
+		cc := x.Common()
+		cal := cc.StaticCallee()
+		if cal != nil && cal.Signature.Recv() != nil && len(cc.Args) > 0 {
+			if al, ok := cc.Args[0].(*ssa.Alloc); ok && (cal.Name() == "String" || cal.Name() == "Bytes") {
+				// the accumulated text of a local builder: every write that can come before this read
+				if al.Referrers() != nil {
+					for _, r := range *al.Referrers() {
+						wc, ok := r.(*ssa.Call)
+						if !ok || wc == x || !strings.HasPrefix(wc.Common().StaticCallee().Name(), "Write") {
+							continue
+						}
+						if wc.Block() == x.Block() || wc.Block().Dominates(x.Block()) || blockReaches(wc.Block(), x.Block()) {
+							for _, a := range wc.Common().Args[1:] {
+								textLeaves(a, at, out, seen, d+1)
+							}
+						}
+					}
+				}
+				return
+			}
+		}
+		if cc.IsInvoke() {
+			textLeaves(cc.Value, at, out, seen, d+1)
+		}
+		for _, a := range cc.Args {
+			textLeaves(a, at, out, seen, d+1)
+		}
+	}
+}
+
+func blockReaches(from, to *ssa.BasicBlock) bool {
+	seen := map[*ssa.BasicBlock]bool{}
+	work := []*ssa.BasicBlock{from}
+	for len(work) > 0 {
+		b := work[len(work)-1]
+		work = work[:len(work)-1]
+		if b == to {
+			return true
+		}
+		if seen[b] {
+			continue
+		}
+		seen[b] = true
+		work = append(work, b.Succs...)
+	}
+	return false
 }
